@@ -131,6 +131,12 @@ impl Prop for C11Prop {
         };
         let tight = stream.ends_with("tight");
         let w = wf::build(t, if tight { 60 } else { wf::fuel_for("prog").min(90) }, opts, policy, None)?;
+        // the layouts use U+3000 as a blank now and then; this property needs one column per
+        // character, so it becomes an ordinary space here
+        let mut w = w;
+        if !w.input.is_ascii() {
+            w.input = w.input.replace('\u{3000}', " ");
+        }
         if !w.input.is_ascii() {
             return None;
         }
